@@ -12,7 +12,7 @@ THEOREMS = ['C05.C05_metaepoch_count', 'C05.C05_returns_iff_true', 'C05.C05_boun
 LEVEL = 'proof'
 LEVEL_TEXT = 'Theorems over all event sequences of the small-step model of run(): the metaepoch counter is incremented exactly by the loop-head consults that came out false; run returns iff the consult at a boundary is true; at a boundary nothing else can happen; nothing happens after return; no deme is created once the condition was observed true; after that a deme performs at most the first generation of its metaepoch. Tie: trace refinement of DemeTree.run() itself (not a stepping loop) over every shipped GSC kind, with evaluation limits landing inside generations and inside new demes initial populations. NEW (run level): C05_after_true — from any state in which the condition has been observed true, no accepted continuation of any length starts another metaepoch or sprouts a deme; C05_winddown_bound — bounded wind-down: the number of further accepted generation / local-search events is at most the length of the pending schedule (one per deme still scheduled). NEW: C05_metaepochLimit_exact — for every run of a freshly constructed tree whose global stop condition is MetaepochLimit(n), whatever the engines, the sprouting and the local stop conditions do, the counter equals n when run() returns (inductive LimitInv; done_only_by_true_consult: only a loop-head consult with a true verdict ends a run); C05_dontRun_zero; C05_capped (any composite containing a metaepoch limit, as the harness uses, never starts more than n metaepochs). Witness.run_done: a concrete accepted run meets the hypotheses.'
 LEVEL_NOTE = 'Trusted: Lean kernel + standard axioms; the hand-written tree model (Tree.step) is tied to DemeTree.run by trace refinement on sampled runs (every run is re-executed by the model, dumps and sprout stages diffed); numerical engines (NumPy RNG, cma, scipy), objective values and user-defined stop-condition verdicts are environment; monitors trusted as failing-input search. User-defined global stop conditions are covered only if monotone (a condition that turns false again is rejected by the model and reported).'
-TECHNIQUE = "trace refinement against the Lean tree model (Tree.step re-executes real runs) + direct monitors"
+TECHNIQUE = "Lean 4 theorems (inductive invariants of the tree machine Tree.step, proved for all configurations and event sequences) tied to the code by trace refinement (Tree.step re-executes real runs; engine generations replayed bit-exactly by the engine model) + direct monitors as failing-input search"
 RULE = "case = one traced run of a random configuration (1-3 levels, engine per level from the full list, every shipped GSC/LSC kind plus user-defined ones, both stock sprout mechanisms and user-composed chains, hibernation on/off, both directions, decimal boxes, optional cutoff/precision/stats wrappers, shared or per-level problems); non-trivial = run with >= 2 demes and >= 2 metaepochs; distinct by configuration hash"
 ASSUMPTIONS = ["objective is deterministic and never returns NaN", "runs are capped at 12 metaepochs by a user-level composite stop condition"]
 FORCE = None
